@@ -10,11 +10,12 @@ import time
 from concurrent.futures import ThreadPoolExecutor
 
 VERIF = os.path.dirname(os.path.dirname(os.path.dirname(os.path.abspath(__file__))))
+REPO = os.environ.get("VF_REPO") or "/repo"
 
 
 def crosshair(target, cond_timeout, path_timeout=None):
     env = dict(os.environ)
-    env["PYTHONPATH"] = VERIF + os.pathsep + "/repo"
+    env["PYTHONPATH"] = VERIF + os.pathsep + REPO
     env["PYTHONDONTWRITEBYTECODE"] = "1"
     cmd = [sys.executable, "-m", "crosshair", "check", "--report_all", "--per_condition_timeout", str(cond_timeout)]
     if path_timeout:
@@ -64,9 +65,9 @@ def replay(modname, fname, args):
     """re-execute the harness function concretely in a fresh interpreter against the real code.
     returns True if the property is violated (function returns False or raises)"""
     pos, kw = args
-    code = ("import sys, json\nsys.path[:0]=[%r,'/repo']\nimport importlib\nm=importlib.import_module(%r)\n"
+    code = ("import sys, json\nsys.path[:0]=[%r,%r]\nimport importlib\nm=importlib.import_module(%r)\n"
             "try:\n r=getattr(m,%r)(*%r, **%r)\n print('REPLAY', 'ok' if r is True or r is None else 'violated:%%r' %% (r,))\n"
-            "except Exception as e:\n print('REPLAY', 'violated: raised %%s: %%s' %% (type(e).__name__, e))\n") % (VERIF, modname, fname, pos, kw)
+            "except Exception as e:\n print('REPLAY', 'violated: raised %%s: %%s' %% (type(e).__name__, e))\n") % (VERIF, REPO, modname, fname, pos, kw)
     p = subprocess.run([sys.executable, "-c", code], capture_output=True, text=True, timeout=300, cwd=VERIF)
     line = [l for l in p.stdout.splitlines() if l.startswith("REPLAY")]
     if not line:
